@@ -12,6 +12,11 @@ pub struct Error { _p: () }
 /// stand-in for dbase::WritableRecord / ReadableRecord (marker only)
 pub trait WritableRecord {}
 pub trait ReadableRecord {}
+/// stand-in for dbase::Record (the generic row type)
+#[verifier::external_body]
+pub struct Record { _p: () }
+impl ReadableRecord for Record {}
+impl WritableRecord for Record {}
 
 /// stand-in for dbase::TableWriter<T>: only the row count is modelled.
 /// Contract read off dbase-0.6.1 src/writing.rs (write_record): the row counter is incremented only
@@ -28,6 +33,63 @@ impl<T: std::io::Write + std::io::Seek> TableWriter<T> {
         ensures
             r is Ok ==> final(self).rows() == old(self).rows() + 1,
             r is Err ==> final(self).rows() == old(self).rows(),
+    { unimplemented!() }
+}
+
+/// row `i` of a table decoded as `R` (uninterpreted: what dbase makes of the bytes is dbase's business)
+pub uninterp spec fn row_of<R: ReadableRecord>(table: int, i: int) -> R;
+
+/// stand-in for dbase::Reader<T>.  Ghost model (read off dbase-0.6.1 src/reading.rs; tables without deleted rows,
+/// which is C08's quantifier): `table()` identifies the content (never changes), `num_rows()` is the header's
+/// record count, `row_pos()` is the row the source is positioned on.
+#[verifier::external_body]
+#[verifier::reject_recursive_types(T)]
+pub struct Reader<T: std::io::Read + std::io::Seek> { _p: core::marker::PhantomData<T> }
+
+impl<T: std::io::Read + std::io::Seek> Reader<T> {
+    pub uninterp spec fn table(&self) -> int;
+    pub uninterp spec fn num_rows(&self) -> nat;
+    pub uninterp spec fn row_pos(&self) -> nat;
+
+    /// `seek(index)`: source.seek(Start(offset_to_first_record + index * size_of_record))
+    #[verifier::external_body]
+    pub fn seek(&mut self, index: usize) -> (r: Result<(), Error>)
+        ensures
+            final(self).table() == old(self).table(), final(self).num_rows() == old(self).num_rows(),
+            r is Ok ==> final(self).row_pos() == index,
+            r is Err ==> final(self).row_pos() == old(self).row_pos(),
+    { unimplemented!() }
+
+    /// `iter_records_as`: a RecordIterator borrowing the reader, its own counter starting at 0; nothing is read or moved
+    #[verifier::external_body]
+    pub fn iter_records_as<R: ReadableRecord>(&mut self) -> (r: RecordIterator<'_, T, R>)
+        ensures
+            *r.reader == *old(self), r.current_record == 0, *final(self) == *final(r.reader),
+    { unimplemented!() }
+}
+
+/// stand-in for dbase::RecordIterator<'a, T, R> (fields as in dbase, minus the scratch buffers)
+#[verifier::reject_recursive_types(T)]
+#[verifier::reject_recursive_types(R)]
+pub struct RecordIterator<'a, T: std::io::Read + std::io::Seek, R: ReadableRecord> {
+    pub reader: &'a mut Reader<T>,
+    pub record_type: core::marker::PhantomData<R>,
+    pub current_record: u32,
+}
+
+impl<'a, T: std::io::Read + std::io::Seek, R: ReadableRecord> RecordIterator<'a, T, R> {
+    /// `next`: None once `current_record >= num_records` or when the source is exhausted (`.ok()?` on the reads);
+    /// otherwise the row under the source is decoded (Ok or Err), source and counter advance by one row
+    #[verifier::external_body]
+    pub fn next(&mut self) -> (r: Option<Result<R, Error>>)
+        ensures
+            *final(final(self).reader) == *final(old(self).reader),
+            (*final(self).reader).table() == (*old(self).reader).table(), (*final(self).reader).num_rows() == (*old(self).reader).num_rows(),
+            (old(self).current_record >= (*old(self).reader).num_rows() || (*old(self).reader).row_pos() >= (*old(self).reader).num_rows()) ==>
+                r is None && (*final(self).reader).row_pos() == (*old(self).reader).row_pos() && final(self).current_record == old(self).current_record,
+            (old(self).current_record < (*old(self).reader).num_rows() && (*old(self).reader).row_pos() < (*old(self).reader).num_rows()) ==>
+                r is Some && (*final(self).reader).row_pos() == (*old(self).reader).row_pos() + 1 && final(self).current_record == old(self).current_record + 1
+                && (r->Some_0 is Ok ==> r->Some_0->Ok_0 == row_of::<R>((*old(self).reader).table(), (*old(self).reader).row_pos() as int)),
     { unimplemented!() }
 }
 
